@@ -167,6 +167,25 @@ func TestC06(t *testing.T) {
 			fail(rt, rec, "c06", sig, msg, c)
 		}
 	})
+	// enumerated: revocation lists over the calendar x the CRL lint's option
+	forEachCalendarCRL(func(c engine.Case) {
+		rec.Eval()
+		rec.Class("calendar_crl")
+		if sig, msg := judgeC06(rec, c); msg != "" {
+			if rec.Report("c06", sig, msg, c) {
+				t.Fatalf("c06 %v: %s: %s", c.Ops, sig, msg)
+			}
+		}
+	})
+	// under well-typed configurations (severity must match the name whatever option is set)
+	rapidRun(t, "configured", perShard(stats.Scale(12000, 400000)), func(rt *rapid.T) {
+		c, _ := drawConfiguredCase(rt)
+		rec.Eval()
+		rec.Class("configured")
+		if sig, msg := judgeC06(rec, c); msg != "" {
+			fail(rt, rec, "c06", sig, msg, c)
+		}
+	})
 	rapidRun(t, "generated", perShard(stats.Scale(25000, 1000000)), func(rt *rapid.T) {
 		c := drawObject(rt, 4, true)
 		rec.Eval()
